@@ -67,4 +67,5 @@ def main() -> int:
 
 
 if __name__ == '__main__':
-    sys.exit(main())
+    rc = main()
+    sys.exit(rc)
